@@ -156,9 +156,10 @@ func cmdCheck(argv []string) int {
 		}
 	}
 	if *cfgTimeout == 0 {
-		*cfgTimeout = 60
+		// generous: the registered configurations need at most a third of this on an idle machine
+		*cfgTimeout = 150
 		if *tier == "thorough" {
-			*cfgTimeout = 600
+			*cfgTimeout = 900
 		}
 	}
 	if *cross == "default" {
